@@ -75,20 +75,79 @@ Qed.
 Lemma store_is_replay sched s :
   run ideal cfg (init st0) sched = Some s ->
   let oks := filter is_ok (log s) in
-  (* every decided result (success or 409/400/404) is the one a sequential execution in log order gives *)
+  (* every decided result (success, 409/400/404, handler cut short by a failed cluster operation) is
+     the one a sequential execution in log order gives *)
   legal st0 (log s) /\
-  (* the successes alone replay legally, and their order is the version order *)
-  legal st0 oks /\
+  (* the entries with an effect replay legally on their own; the successes among them carry
+     increasing versions in that order *)
+  legal st0 (filter has_effect (log s)) /\
   map ver_of oks = zseq (snd st0 + 1) (List.length oks) /\
-  (* whenever no handler is between _putObject and the version write, objects and version are the replay *)
-  ((forall t, mid_write (pcs s t) = false) -> (objs s, ver s) = replay st0 (map e_req oks)).
+  (* whenever no handler is between _putObject and the version write, objects and version are the replay
+     of the successes (in version order) and of the object writes of the cut-short handlers *)
+  ((forall t, mid_write (pcs s t) = false) ->
+     (objs s, ver s) = replay st0 (filter has_effect (log s)) /\
+     (* no cluster operation failed after an object write: exactly the successful requests *)
+     ((forall e, In e (log s) -> e_res e <> RErr true) -> (objs s, ver s) = replay st0 oks)).
 Proof.
   intros R oks. pose proof (invS_reach cfg st0 _ _ R) as J.
   pose proof (j_legal _ _ _ J) as L. repeat split.
   - assumption.
-  - apply legal_filter_ok. assumption.
+  - apply legal_filter_effect. assumption.
   - apply (legal_versions _ _ L).
-  - intros Hm. rewrite (j_base _ _ _ J Hm). unfold base. apply replay_filter_ok. assumption.
+  - rewrite (j_base _ _ _ J H). unfold base. apply replay_filter_effect. assumption.
+  - intros Hne. rewrite (j_base _ _ _ J H). unfold base. unfold oks.
+    rewrite <- (filter_effect_ok _ Hne). apply replay_filter_effect. assumption.
+Qed.
+
+(** a schedule without fault steps logs no error entries *)
+Lemma step_no_fault_log q s t l s' :
+  l <> LFault -> step q cfg s t l = Some s' ->
+  (forall e, In e (log s) -> forall b, e_res e <> RErr b) ->
+  (forall e, In e (log s') -> forall b, e_res e <> RErr b).
+Proof.
+  intros Hl H Hs.
+  destruct (label_eq_dec l LRegrant) as [->|Hnr].
+  { unfold step in H.
+    assert (E : log s' = log s).
+    { destruct (pcs s t); destruct (q_regrant_revokes q); inversion H; reflexivity. }
+    rewrite E. exact Hs. }
+  unfold step in H.
+  destruct l; try congruence; destruct (pcs s t) as [| | |k| r| r| r|] eqn:Ep; try discriminate.
+  all: try (unfold cs_step in H; destruct (t_req (cfg t)); try discriminate;
+            repeat (destruct k as [|k]; try discriminate)).
+  all: repeat match type of H with
+  | (if ?c then _ else _) = _ => destruct c eqn:?; try discriminate
+  | match ?c with _ => _ end = _ => destruct c eqn:?; try discriminate
+  end; inversion H; subst; cbn [log set_pc finish] in *; auto.
+  all: intros e Hin bb; apply in_app_iff in Hin; destruct Hin as [Hin|[<-|[]]]; [apply Hs; assumption|cbn; discriminate].
+Qed.
+
+Lemma run_no_fault_log q sched : forall s s',
+  (forall t, ~ In (t, LFault) sched) -> run q cfg s sched = Some s' ->
+  (forall e, In e (log s) -> forall b, e_res e <> RErr b) ->
+  (forall e, In e (log s') -> forall b, e_res e <> RErr b).
+Proof.
+  induction sched as [|[t l] rest IH]; cbn; intros s s' Hn H Hs.
+  - inversion H; subst; assumption.
+  - destruct (step q cfg s t l) eqn:E; [|discriminate].
+    eapply IH; [|eassumption|].
+    + intros t' Hin. apply (Hn t'). right. assumption.
+    + eapply step_no_fault_log; [|eassumption|assumption].
+      intros ->. apply (Hn t). left. reflexivity.
+Qed.
+
+(** the property as stated (no failing cluster operation in the schedule): the stored objects and
+    version are the replay of the successful requests in version order *)
+Lemma store_is_replay_no_fault sched s :
+  run ideal cfg (init st0) sched = Some s ->
+  (forall t, ~ In (t, LFault) sched) ->
+  (forall t, mid_write (pcs s t) = false) ->
+  (objs s, ver s) = replay st0 (filter is_ok (log s)).
+Proof.
+  intros R Hn Hm. destruct (store_is_replay _ _ R) as (_ & _ & _ & H).
+  destruct (H Hm) as (_ & H2). apply H2.
+  intros e Hin. eapply (run_no_fault_log ideal sched (init st0) s Hn R); [|eassumption].
+  cbn. intros ? [].
 Qed.
 
 (** in quiescent states in particular *)
@@ -100,6 +159,7 @@ Definition succ_path (p : pc) : bool :=
   match p with
   | PCs (S _) => true
   | PEnd (ROk _ _) | PUnl (ROk _ _) | PDone (ROk _ _) => true
+  | PEnd (RErr _) | PUnl (RErr _) | PDone (RErr _) => true
   | _ => false
   end.
 
@@ -238,6 +298,20 @@ Example nonvacuous :
   | Some s => map e_res (log s) = [ROk 201 8; RFail 409; ROk 200 9; RFail 404] /\
               map e_tid (log s) = [1; 0; 3; 2]%nat /\ objs s = [] /\ ver s = 9 /\ pcs s 4%nat = PFail /\
               queue s = []
+  | None => False
+  end.
+Proof. vm_compute. repeat split; reflexivity. Qed.
+
+(** with a failing cluster operation: thread 0 creates "a" (version 8); thread 2's update is cut short
+    after its object write (no version), thread 3's delete is cut short at its first read *)
+Definition ex_fault_sched : list (tid * label) :=
+  (full_ok 0 4 ++ full_fault 2 2 ++ full_fault 3 0 ++ full_ok 1 1)%nat.
+
+Example nonvacuous_fault :
+  match run ideal (fun t => match t with 2%nat => {| t_mem := 0%nat; t_hnd := 0%nat; t_req := RUpdate "a" "K1" "z"; t_to := false |} | _ => ex_cfg t end)
+            (init ([], 7)) ex_fault_sched with
+  | Some s => map e_res (log s) = [ROk 201 8; RErr true; RErr false; RFail 409] /\
+              objs s = [("a"%string, ("K1"%string, "z"%string))] /\ ver s = 8 /\ queue s = []
   | None => False
   end.
 Proof. vm_compute. repeat split; reflexivity. Qed.
